@@ -1407,3 +1407,65 @@ pub fn cfg_variant(spec: &GSpec, t: &mut Tape) -> (GSpec, std::collections::BTre
     }
     (s, feats)
 }
+
+// -------------------------------------------------------- recovery (C16)
+
+/// Table-driven grammars with `!` at several depths: statement lists,
+/// bracketed items, `!` after a prefix, bare `!`; every alternative renders
+/// all of its symbols (`<>`), error alternatives are `@L ! @R`.
+pub fn gen_recovery(t: &mut Tape) -> GSpec {
+    let terms: Vec<TermSpec> = (0..6u32).map(|k| extern_term(k, false)).collect();
+    let mut spec = GSpec { lexer: Lexer::Extern { loc: LocTy::Usize }, terms, nts: vec![], declare_error: true, cx_name: "cx".into(), lt_name: "cx".into() };
+    // a random assignment of roles to the six unit tokens
+    let mut roles: Vec<usize> = (0..6).collect();
+    for i in (1..6).rev() {
+        let j = t.below(i + 1);
+        roles.swap(i, j);
+    }
+    let (t_atom, t_plus, t_semi, t_lp, t_rp, t_kw) = (roles[0], roles[1], roles[2], roles[3], roles[4], roles[5]);
+    let tm = |i: usize| SymKind::T(i);
+    let user = |syms: Vec<SymKind>| AltSpec::new(syms.into_iter().map(SymSpec::plain).collect(), Act::User { fallible: false, style: Style::Angle });
+    let nt = |name: &str, public: bool, alts: Vec<AltSpec>| NtSpec { name: name.into(), public, inline: false, ty: Some(Ty::Str), alts, cfg: vec![], params: vec![] };
+    let err = || vec![SymKind::L, SymKind::Err, SymKind::R];
+    // indices: 0 S, 1 Stmt, 2 E, 3 T
+    let list_op = *t.pick(&[RepOp::Star, RepOp::Plus]);
+    let s_alts = match t.below(3) {
+        0 => vec![user(vec![SymKind::N(1)])],
+        _ => vec![user(vec![SymKind::Rep(Box::new(SymKind::N(1)), list_op)])],
+    };
+    let mut stmt_alts = vec![user(vec![SymKind::N(2), tm(t_semi)])];
+    if t.chance(70) {
+        stmt_alts.push(user(vec![tm(t_kw), SymKind::N(2), tm(t_semi)]));
+    }
+    let mut any_err = false;
+    if t.chance(170) {
+        let mut v = err();
+        v.push(tm(t_semi));
+        stmt_alts.push(user(v));
+        any_err = true;
+    }
+    if t.chance(80) {
+        let mut v = vec![tm(t_kw)];
+        v.extend(err());
+        v.push(tm(t_semi));
+        stmt_alts.push(user(v));
+        any_err = true;
+    }
+    if t.chance(40) {
+        stmt_alts.push(user(err()));
+        any_err = true;
+    }
+    let e_alts = vec![user(vec![SymKind::N(3)]), user(vec![SymKind::N(2), tm(t_plus), SymKind::N(3)])];
+    let mut t_alts = vec![user(vec![tm(t_atom)]), user(vec![tm(t_lp), SymKind::N(2), tm(t_rp)])];
+    if t.chance(130) || !any_err {
+        let mut v = vec![tm(t_lp)];
+        v.extend(err());
+        v.push(tm(t_rp));
+        t_alts.push(user(v));
+    }
+    spec.nts.push(nt("S", true, s_alts));
+    spec.nts.push(nt("Stmt", false, stmt_alts));
+    spec.nts.push(nt("E", false, e_alts));
+    spec.nts.push(nt("T", false, t_alts));
+    spec
+}
